@@ -43,7 +43,8 @@ CHECKS = {
             "at 1e-10 on Gaussian data and on all unit vectors for <= 64 inputs; every node's "
             "advertised shapes are compared with independently predicted ones; the apply hook "
             "checks exact output shape at every (nested) application; 11 classes of misfit "
-            "operand sets must be rejected at construction.",
+            "operand sets must be rejected at construction, also in workers started with "
+            "python -O.",
             "DESIGN.md section 4, C03"),
     "C04": ("reference-model monitor: real A.N vs real A.H(A(.)) on complex data, exhaustive "
             "1-D block settings, Toeplitz NUFFT normal within the stated accuracy, PSD check",
@@ -113,7 +114,9 @@ CHECKS = {
             "classes) are compared with the exact Krylov-optimal iterate where a float64 drift "
             "model (1e-12 kappa^(k/2) <= 1e-4) says the exact-arithmetic claim transfers; "
             "monotonicity, residual identity, exact line search and A-conjugacy of successive "
-            "steps are checked at every step.",
+            "steps are checked at every step. Fault injection: an operator that raises once "
+            "mid-run and a retried update must reproduce the undisturbed iterates; done() is "
+            "asked twice at every query.",
             "DESIGN.md section 4, C12"),
     "C13": ("offline trace checkers over GradientMethod / PrimalDualHybridGradient histories: "
             "monotone objective, ISTA/FISTA rate bounds (incl. Nesterov's worst-case quadratic "
@@ -178,7 +181,9 @@ CHECKS = {
             "return a binary mask within tol of the acceleration with the calibration block "
             "full and no sample at normalised radius >= 1, or raise ValueError, within 200 "
             "kernel calls; the global RNG state must be bit-identical afterwards and a second "
-            "call must give the same mask.",
+            "call must give the same mask. Unseeded requests are decided on every clause but "
+            "reproducibility; small seeded grids are also run in workers started with "
+            "NUMBA_DISABLE_JIT=1 (interpreted kernel).",
             "DESIGN.md section 4, C18"),
     "C19": ("postcondition / reference-relation monitor on the Cayley-Klein parameters of the "
             "five real simulators (unitarity, zero-pulse identity, SU(2) composition of split "
